@@ -330,7 +330,8 @@ func liftOpt(mp *parse.MapPair) (Opt, error) {
 		return Opt{}, fmt.Errorf("option name is not a literal")
 	}
 	if mp.Value == nil {
-		return Opt{}, fmt.Errorf("option without value")
+		// "&key is equivalent to &key=$true"
+		return Opt{name, Var("true")}, nil
 	}
 	e, err := liftCompound(mp.Value)
 	if err != nil {
